@@ -3,7 +3,7 @@
 cd "$(dirname "$0")/.."
 for id in C14 C17 C06 C16 C15 C20 C10 C13 C12 C03 C08 C09 C04 C05 C18 C19 C11 C01 C07 C02; do
   s=$(date +%s)
-  out=$(timeout 3600 ./check $id --tier thorough 2>&1)
+  out=$(timeout 10800 ./check $id --tier thorough 2>&1)
   rc=$?
   echo "$id rc=$rc $(( $(date +%s) - s ))s :: $(echo "$out" | grep -E "^C[0-9]+ thorough|MACHINERY" | tail -1 | cut -c1-200) :: $(echo "$out" | grep -c '^VIOLATION') violations"
   echo "$out" | grep -E "^VIOLATION|^DRIFT|KNOWN" | sed -E 's/replay=[^ ]+ //' | cut -c1-160 | sort | uniq -c | sort -rn | head -5
